@@ -40,7 +40,7 @@ SENT_BULK = 987002
 
 def scratch():
     if _S.get("pid") != os.getpid():
-        _S["dir"] = tempfile.mkdtemp(prefix="verif-c10-", dir="/dev/shm" if os.path.isdir("/dev/shm") else None)
+        _S["dir"] = tempfile.mkdtemp(prefix="verif-c10-")
         _S["pid"] = os.getpid()
         _S["n"] = 0
         import atexit
@@ -92,7 +92,11 @@ def write_track(model, spelling, track_params_extra=None):
         os.makedirs(os.path.dirname(fp), exist_ok=True)
         with open(fp, "w", encoding="utf-8") as f:
             f.write(content)
-    if spelling == "plain":
+    raw = m.pop("_raw", None)
+    m.pop("_expect_model", None)
+    if raw is not None:
+        text = raw
+    elif spelling == "plain":
         text = json.dumps(m, indent=1)
     elif spelling == "jinja":
         # numbers become template expressions: user-supplied value for clients, default for bulk-size
@@ -345,7 +349,7 @@ def check_valid(model, spelling, res, label, challenge_sel=None):
     try:
         reader = loader.TrackFileReader(cfg_for(params, challenge_sel))
         trk = reader.read("verif", path, d)
-        want = expect(model)
+        want = expect(model.get("_expect_model", model))
         got = observe(trk)
         if spelling == "parts":
             want["challenges"].sort(key=lambda c: c["name"])
@@ -497,6 +501,31 @@ def sequence_models():
                 yield f"S:{i}:two-challenges:{sel}", m, sel
 
 
+def helper_models():
+    """Rally's template helper rally.exists_set_param(name, value, default_value, comma): emits the setting iff the value is defined or a
+    default is given; a defined value always wins over the default -- also when it is false, 0 or empty"""
+    UNDEF = object()
+    for value in (UNDEF, False, True, 0, 5, "", "x"):
+        for default in (None, True, 7, "d"):
+            for comma in (True, False):
+                emitted = value is not UNDEF or default is not None
+                if not comma and not emitted:
+                    continue  # (nothing emitted in front of a closing brace would leave a dangling comma in the hand-written text)
+                dv = "" if default is None else ", default_value=" + json.dumps(default)
+                call = '{{ rally.exists_set_param("cache", p_cache%s%s) }}' % (dv, "" if comma else ", comma=False")
+                op_text = '{"name": "op-h", "operation-type": "search", "index": "idx"%s %s}' % ("" if comma else ",", call)
+                raw = ('{"version": 2, "description": "d", "indices": [{"name": "idx"}], "operations": [%s],\n'
+                       ' "challenges": [{"name": "main", "default": true, "schedule": [{"operation": "op-h", "clients": {{ p_clients | default(3) }}}]}]}' % op_text)
+                op = {"name": "op-h", "operation-type": "search", "index": "idx"}
+                if emitted:
+                    op["cache"] = default if value is UNDEF else value
+                exp = {"version": 2, "description": "d", "indices": [{"name": "idx"}], "operations": [op],
+                       "challenges": [{"name": "main", "default": True, "schedule": [{"operation": "op-h", "clients": 3}]}]}
+                m = {"_raw": raw, "_expect_model": exp, "_params": {} if value is UNDEF else {"p_cache": value}}
+                m.update(exp)
+                yield f"H:value={'undefined' if value is UNDEF else json.dumps(value)}:default={json.dumps(default)}:comma={comma}", m
+
+
 def corpora_models():
     docsets = [
         {"source-file": "docs.json.bz2", "document-count": 10, "compressed-bytes": 100, "uncompressed-bytes": 1000},
@@ -583,6 +612,10 @@ def invalid_models():
             mut("warmup-iterations-with-time-period", lambda m: sched(m)[0].update({"warmup-iterations": 1, "time-period": 5})),
             mut("warmup-time-period-with-iterations", lambda m: sched(m)[0].update({"warmup-time-period": 1, "iterations": 5})),
             mut("ramp-up-with-iterations", lambda m: sched(m)[0].update({"iterations": 5, "ramp-up-time-period": 1})),
+            mut("ramp-up-with-warmup-iterations-only", lambda m: sched(m)[0].update({"warmup-iterations": 5, "warmup-time-period": 4, "ramp-up-time-period": 1})),
+            mut("ramp-up-with-iterations-and-periods", lambda m: sched(m)[0].update({"iterations": 5, "warmup-time-period": 4, "ramp-up-time-period": 1})),
+            mut("inherited-ramp-up-with-warmup-iterations", lambda m: (sched(m)[1]["parallel"].update({"warmup-time-period": 4, "time-period": 9, "ramp-up-time-period": 2}),
+                                                                     sched(m)[1]["parallel"]["tasks"][0].update({"warmup-iterations": 3}))),
             mut("ramp-up-without-warmup-period", lambda m: sched(m)[0].update({"time-period": 5, "ramp-up-time-period": 1})),
             mut("ramp-up-above-warmup-period", lambda m: sched(m)[0].update({"warmup-time-period": 1, "time-period": 5, "ramp-up-time-period": 3})),
             mut("ramp-up-on-nested-task", lambda m: sched(m)[1]["parallel"]["tasks"][0].update({"warmup-time-period": 4, "time-period": 5, "ramp-up-time-period": 2})),
@@ -619,7 +652,10 @@ def _job(arg):
     kind, items = arg
     res = Result()
     for it in items:
-        if kind == "valid":
+        if kind == "raw":
+            label, model, sel = it
+            check_valid(model, "plain", res, label, sel)
+        elif kind == "valid":
             label, model, sel = it
             for spelling in ("plain", "jinja", "parts"):
                 if spelling == "parts" and "schedule" in model:
@@ -636,8 +672,10 @@ def run(tier, seed):
     valid = [(l, m, None) for l, m in task_models(tier)] + [(l, m, None) for l, m in parallel_models(tier)] + list(challenge_models()) + list(sequence_models()) + [
         (l, m, None) for l, m in corpora_models()
     ] + [(l, m, None) for l, m in file_models()]
+    helpers = [(l, m, None) for l, m in helper_models()]
     invalid = list(invalid_models())
     jobs = [("valid", ch) for ch in par.chunks(valid, par.NPROC * 4)] + [("invalid", ch) for ch in par.chunks(invalid, par.NPROC)]
+    jobs += [("raw", ch) for ch in par.chunks(helpers, 4)]
     res = par.pmap(_job, jobs, seed=seed)
     res.extra["valid_models"] = len(valid)
     res.extra["invalid_models"] = len(invalid)
